@@ -113,6 +113,18 @@ def handleMem (line : String) : String :=
             let (ss', as) := specApply cfg ss op
             let diffs := if ai != goAns && relevant op && diffs.length < 3 then diffs ++ [s!"op{i}:go={goAns}:model={ai}"] else diffs
             let viols := if as != goAns && relevant op && viols.length < 3 then viols ++ [s!"op{i}:go={goAns}:spec={as}"] else viols
+            -- C07 stream: the machine must also BEHAVE as restored: once a restore has happened, an answer that contradicts
+            -- the documented behaviour is a restore that did not bring the banking state back — unless answers were already
+            -- wrong before the first restore (then it is the decoder's business, not the snapshot's)
+            let isRestore := match op with | .restore => true | _ => false
+            let restored := viols.contains "@restored"
+            let preBad := viols.contains "@prebad"
+            let mism := as != goAns && !isStatOp op
+            let viols := if flavour == "7" && mism && !restored && !preBad then viols ++ ["@prebad"] else viols
+            let viols := if flavour == "7" && mism && restored && !preBad &&
+                (viols.filter (·.startsWith "after-restore")).length < 2
+              then viols ++ [s!"after-restore:op{i}:go={goAns}:spec={as}"] else viols
+            let viols := if flavour == "7" && isRestore && !restored then viols ++ ["@restored"] else viols
             -- C06 stream: an answer to a load that contradicts the documented decoder is the decoder's business
             let viols := if flavour == "6" && as != goAns && !isStatOp op && !viols.contains "DECODER" then viols ++ ["DECODER"] else viols
             let touchedW := if op.written.isSome then add touchedW ci else touchedW
@@ -151,6 +163,7 @@ def handleMem (line : String) : String :=
             else if im.startsWith "R:" then (acc.1, acc.2 || (im.drop 2).toString != acc.1)
             else acc) ("", false)
           let viols := if badRestore then viols ++ ["restore-image"] else viols
+          let viols := viols.filter (fun t => !t.startsWith "@")
           let d := if diffs.isEmpty then "agree" else "DIFF " ++ ",".intercalate diffs
           let v := if viols.isEmpty then "specok" else "VIOL " ++ ",".intercalate (viols.map fun t => if t == "DECODER" then s!"C04:decoder@{spec}" else s!"C0{flavour}:{t}@{spec}")
           s!"{d} | {v} | mem{flavour}"
